@@ -96,6 +96,13 @@ def check_C01(ctx):
             s.mode = mode; scens.append(s)
         for _ in range(n // 2):
             scens.append(Scen(gen_tree(rng), mode=mode))
+    # many failed checks: the verdict a test program passes on as its exit status is failure for every number of them (an exit
+    # status keeps eight bits of what main() returns)
+    for mode in ("fork", "inproc"):
+        scens.append(Scen(S("top", items=[T("a", body=["P"]), T("many", body=["F"] * 256)]), mode=mode))
+        scens.append(Scen(S("top", items=[S("s1", items=[T("h1", body=["F"] * 128)]), S("s2", items=[T("h2", body=["F"] * 128), T("ok", body=["P"])])]), mode=mode))
+        scens.append(Scen(S("top", items=[T("many", body=["F"] * 512), T("b", body=["P", "P"])]), mode=mode))
+    scens.append(Scen(S("top", items=[T("many", body=["F"] * 255), T("dies", body=["P", "K11"])]), mode="fork"))
     # a test whose process is killed while it exits, after its completion notice, in an otherwise green run
     for point in ("after_completion", "at_exit"):
         for how in ("9", "11", "6", "15"):
@@ -167,12 +174,40 @@ def check_C03(ctx):
     reporters = ["text", "quiet", "cute", "libxml"]
     dis, orf = explore(ctx, bench, scens, reporters, oracle_C03, "C03")
     report(ctx, bench, dis, orf, oracle_C03, "C03")
+    # checks made outside any test's bracket (a suite's fixture that the reporting process runs around a sub-suite; an exit handler of
+    # a test's process): they are counted in the suite that is being finished, and the per-suite lines still add up to the grand total,
+    # which is what the channel model says (C01_every_record_counted)
+    late = outside_bracket_scens()
+    lobs = bench.run_many([(sc.text(), r) for sc, _ in late for r in ("text", "cute")])
+    louts = run_model(["faults"], "".join("\n".join(["k -"] + legs_of(sc)) + "\n---\n" for sc, _ in late)).split("\n")[:-1]
+    lshown = 0
+    for i, ((sc, lab), mo) in enumerate(zip(late, louts)):
+        o, oc = lobs[2 * i], lobs[2 * i + 1]
+        want = mo.split(" ")[1:5]
+        tot = observed_totals(o, "text")
+        sums = [0, 0, 0, 0]
+        for l in impl_proj(o, "text"):
+            if l.startswith("suite "):
+                for j, x in enumerate(l.split(" ")[2:6]):
+                    sums[j] += int(x)
+        errs = []
+        if tot is None or [str(int(x)) for x in tot] != want:
+            errs.append(f"the text reporter's totals are {tot}, what happened is {want} (passes, failures, skips, exceptions)")
+        if tot is not None and [str(x) for x in sums] != [str(int(x)) for x in tot]:
+            errs.append(f"the per-suite lines add up to {sums}, the totals line says {list(tot)}")
+        ctot = observed_totals(oc, "cute")
+        if ctot is None or [str(int(ctot[0])), str(int(ctot[1])), str(int(ctot[3]))] != [want[0], want[1], want[3]]:
+            errs.append(f"CUTE's totals are {ctot}, what happened is {want}")
+        if errs and lshown < 4:
+            lshown += 1
+            ctx.violation(f"[C03] {lab} ({sc.mode}): " + "; ".join(errs), "# reporter: text   harness/scenario_run <file> text <outdir>\n" + sc.text(), found_input=True, facts={"outside_bracket": True})
+    ctx.coverage["outside_bracket_runs"] = len(lobs)
     ctx.coverage["samples"] = sample_of(scens)
     ctx.coverage["evaluations"] = ctx.coverage["correspondence"]["cases"]
     ctx.coverage["distinct_nontrivial"] = len({s.text() for s in scens})
 
 
-KILL_POINTS = ["before_setup", "after_setup", "after_body", "after_teardown", "after_tally", "before_write", "after_write",
+KILL_POINTS =["before_setup", "after_setup", "after_body", "after_teardown", "after_tally", "before_write", "after_write",
                "after_completion", "at_exit"]
 KILL_HOWS = ["11", "9", "6", "15", "13", "exit", "_exit"]
 
@@ -1001,6 +1036,30 @@ def check_C13(ctx):
         if errs and shown < 8:
             shown += 1
             ctx.violation("[C13] " + "; ".join(errs[:3]), "# the same suite under the three execution modes (CUTE reporter)\n" + scens[a].text() + "\n" + scens[b].text(), found_input=True, facts={"mode": "inproc", "rep": "cute"})
+    # ... and as the two XML reporters show them: every test's testcase element has the same failure, error and skipped children in
+    # every mode (a test that fails a check and then skips itself writes its failures in one process and its skip in another when forked,
+    # in the same process otherwise)
+    for rep in ("xml", "libxml"):
+        xobs = bench.run_many([(s.text(), rep) for s in scens])
+        def xview(o):
+            cases, errors = xml_testcases(o)
+            return None if errors else {c[1]: (c[2], c[3], c[4]) for c in cases}
+        for a, b, singles in trip:
+            if status_of(xobs[a]) not in ("0", "1") or status_of(xobs[b]) not in ("0", "1"):
+                continue
+            va, vb = xview(xobs[a]), xview(xobs[b])
+            if va is None or vb is None:
+                errs = [f"the {rep} report is not well-formed (forked: {va is not None}, CGREEN_NO_FORK: {vb is not None})"]
+            else:
+                errs = [f"test {n}: {rep} shows (failures, errors, skipped)={va[n]} forked and {vb.get(n)} with CGREEN_NO_FORK" for n in va if va[n] != vb.get(n)]
+                for name, idx in singles:
+                    vs = xview(xobs[idx])
+                    if status_of(xobs[idx]) in ("0", "1") and vs is not None and vs.get(name) != va.get(name):
+                        errs.append(f"test {name}: {rep} shows (failures, errors, skipped)={va.get(name)} forked and {vs.get(name)} through run_single_test")
+            if errs and shown < 10:
+                shown += 1
+                ctx.violation("[C13] " + "; ".join(errs[:3]), f"# the same suite under the three execution modes\n# reporter: {rep}\n" + scens[a].text() + "\n" + scens[b].text(), found_input=True, facts={"mode": "inproc", "rep": rep})
+        ctx.coverage[f"modes_compared_under_{rep}"] = len(trip)
     # settings made outside any test - by a suite's fixture that the reporting process runs around a sub-suite, or by the
     # program before the run - must not make the modes differ either (not modelled: the three modes are compared with each other)
     outside = []
@@ -2549,7 +2608,10 @@ def gen_pattern(rng, items):
         if r < 0.5: return s[: rng.randrange(len(s) + 1)] + "*"
         if r < 0.6: return "*" + s[rng.randrange(len(s) + 1):]
         if r < 0.7: return "*"
-        if r < 0.8: return s[:1] + "*" + s[-1:]
+        if r < 0.75: return s[:1] + "*" + s[-1:]
+        if r < 0.8 and len(s) > 3:       # stars in the middle: two pieces of the name with whatever lies between them left out
+            i, j = sorted(rng.sample(range(1, len(s)), 2))
+            return rng.choice(["", "*"]) + s[rng.randrange(i):i] + "*" + s[j:]
         if r < 0.9: return s + "x"           # matches nothing
         return s[:-1] if len(s) > 1 else s
     if c == "default" and rng.random() < 0.5:
@@ -2637,6 +2699,21 @@ def check_C09(ctx):
     libs.append((cname, citems))
     for pat in ["Lexer:reads*", "Lex*:reads*", "Lexer:skips*", "Parser:skips*", "Parser:reads_w*", "Parser:*input", "P*:*_fails", "L*:*blanks", "reads*", "Lexer:*s", "*:reads_t*"]:
         runs.append(([(cname, pat)], rng.choice([[], ["-q"], ["--xml", "X"]])))
+    # names in which the literal text that follows a `*` occurs more than once, overlapping itself or cut short just before the real
+    # occurrence: a matcher has to try every position for the star (`*tests` against `unittests`, `*_a_b` against `adds_a_a_b`)
+    oname = "liboverlap_tests.so"
+    oitems = sorted([("Parser", "runs_tests"), ("Parser", "runs_unittests"), ("Parser", "adds_a_a_b"), ("Parser", "aab"), ("Parser", "aaab"), ("Parser", "abab_abc"),
+                     ("Tokens", "mississippi"), ("Tokens", "ababab"), ("Tokens", "runs_tests"), ("default", "xxyxxz"), ("default", "tetests")])
+    srcs = []
+    for c, text in library_sources(oname, oitems).items():
+        src = os.path.join(libdir, f"liboverlap_{c}.c"); open(src, "w").write(text); srcs.append(src)
+    r = sh(["gcc", "-shared", "-fPIC", "-w", f"-I{REPO}/include"] + srcs + ["-o", os.path.join(libdir, oname), f"-L{impl['dir']}", "-lcgreen"])
+    if r.returncode != 0:
+        raise BuildError("test library: " + r.stdout[-1500:])
+    libs.append((oname, oitems))
+    for pat in ["Parser:*tests", "Parser:*i*tests", "Parser:*_a_b", "Parser:*aab", "Parser:*ab*abc", "Tokens:*issip*", "Tokens:*ss*ppi", "Tokens:*sip*", "Parser:a*ab", "Parser:*a*a*b",
+                "*:*tests", "T*s:*ab", "*ok*s:*abab", "*xxz", "*tests", "*x*xz", "*ar*er:*unit*", "To*ns:*is*is*", "*:*b_abc", "Parser:*a_b", "*:*ababab", "*:*abababab", "Parser:aa*ab", "*rs*r:aa*b"]:
+        runs.append(([(oname, pat)], rng.choice([[], ["-q"], ["--xml", "X"]])))
     # tests with very long names (the symbol of a test is its context and name; nm prints one line per symbol)
     lname, litems = "liblong_tests.so", sorted([("default", "short_one"), ("Ctx", "n" * 975), ("Ctx", "m" * 1200 + "_fails"), ("default", "p" * 2500), ("Ctx", "zz")])
     srcs = []
